@@ -1,23 +1,100 @@
+//! C14 — every error number maps to the ESR bit of its IEEE 488.2 class.
+//! Loop-free, full domain: all 65 536 values of the error number.
 use super::spec::*;
 use crate::error::{Error, ErrorCode};
 
+/// Custom errors: any 16-bit number, class by century.
 #[kani::proof]
-pub fn c14_esr_mask_custom() {
+pub fn esr_mask_custom() {
     let code: i16 = kani::any();
     let e = ErrorCode::Custom(code, b"x");
-    assert!(e.get_code() == code, "C14/ErrorCode::get_code/custom-code-is-reported");
-    assert!(e.esr_mask() == spec_class(code), "C14/ErrorCode::esr_mask/class-of-custom-code");
-    assert!(Error::new(e).esr_mask() == spec_class(code), "C14/Error::esr_mask/delegates");
     kani::cover!(code == -100);
     kani::cover!(code == 32767);
+    kani::cover!(code == -32768);
+    assert!(e.get_code() == code, "C14/ErrorCode::get_code/custom-code-is-reported");
+    assert!(e.esr_mask() == spec_class(code), "C14/ErrorCode::esr_mask/class-of-custom-code");
+    assert!(Error::new(e).esr_mask() == spec_class(code), "C14/Error::esr_mask/delegates-to-code");
+    assert!(Error::custom(code, b"y").get_code() == code, "C14/Error::custom/code-is-reported");
+    assert!(Error::custom(code, b"y").esr_mask() == spec_class(code), "C14/Error::custom/class");
+    assert!(Error::new(e).extended(b"ext").esr_mask() == spec_class(code), "C14/Error::extended/class-unchanged");
 }
 
+/// Standard errors: looking a code up yields the error that reports that same code, and its
+/// ESR bit is the class bit of that code.
 #[kani::proof]
-pub fn c14_get_error_lookup() {
+pub fn get_error_lookup() {
     let code: i16 = kani::any();
+    kani::cover!(ErrorCode::get_error(code).is_some() && code == -350);
+    kani::cover!(ErrorCode::get_error(code).is_none());
     if let Some(e) = ErrorCode::get_error(code) {
+        assert!(!matches!(e, ErrorCode::Custom(..)), "C14/ErrorCode::get_error/never-custom");
         assert!(e.get_code() == code, "C14/ErrorCode::get_error/lookup-reports-same-code");
         assert!(e.esr_mask() == spec_class(code), "C14/ErrorCode::esr_mask/class-of-standard-code");
-        kani::cover!(code == -350);
+        assert!(Error::from(e).get_code() == code, "C14/Error::from/code-preserved");
+        assert!(Error::from(e).esr_mask() == spec_class(code), "C14/Error::from/class-preserved");
     }
+}
+
+/// The injected function contract on `ErrorCode::esr_mask`
+/// (`ensures result == spec_class(self.get_code())`) for an arbitrary error value.
+#[kani::proof_for_contract(crate::error::ErrorCode::esr_mask)]
+pub fn esr_mask_contract() {
+    let code: i16 = kani::any();
+    let e = if kani::any() {
+        ErrorCode::Custom(code, b"")
+    } else {
+        match ErrorCode::get_error(code) {
+            Some(e) => e,
+            None => ErrorCode::NoError,
+        }
+    };
+    let _ = e.esr_mask();
+}
+
+/// Errors the library itself raises: syntax / header / data-type faults are command errors
+/// (bit 5, -1xx), value faults are execution errors (bit 4, -2xx).  The numbers are those of
+/// SCPI-99 Vol. 1 21.8.
+#[kani::proof]
+pub fn library_errors_have_their_standard_class() {
+    macro_rules! chk {
+        ($v:ident, $code:expr) => {
+            assert!(ErrorCode::$v.get_code() == $code, concat!("C14/ErrorCode::get_code/", stringify!($v)));
+            assert!(ErrorCode::$v.esr_mask() == spec_class($code), concat!("C14/ErrorCode::esr_mask/", stringify!($v)));
+            assert!(ErrorCode::get_error($code) == Some(ErrorCode::$v), concat!("C14/ErrorCode::get_error/", stringify!($v)));
+        };
+    }
+    chk!(NoError, 0);
+    chk!(InvalidCharacter, -101);
+    chk!(SyntaxError, -102);
+    chk!(InvalidSeparator, -103);
+    chk!(DataTypeError, -104);
+    chk!(ParameterNotAllowed, -108);
+    chk!(MissingParameter, -109);
+    chk!(CommandHeaderError, -110);
+    chk!(HeaderSeparatorError, -111);
+    chk!(ProgramMnemonicTooLong, -112);
+    chk!(UndefinedHeader, -113);
+    chk!(NumericDataError, -120);
+    chk!(InvalidCharacterInNumber, -121);
+    chk!(InvalidSuffix, -131);
+    chk!(SuffixTooLong, -134);
+    chk!(SuffixNotAllowed, -138);
+    chk!(InvalidCharacterData, -141);
+    chk!(CharacterDataTooLong, -144);
+    chk!(StringDataError, -150);
+    chk!(InvalidStringData, -151);
+    chk!(BlockDataError, -160);
+    chk!(InvalidBlockData, -161);
+    chk!(ExpressionError, -170);
+    chk!(InvalidExpression, -171);
+    chk!(ExecutionError, -200);
+    chk!(DataOutOfRange, -222);
+    chk!(IllegalParameterValue, -224);
+    chk!(OutOfMemory, -225);
+    chk!(DeviceSpecificError, -300);
+    chk!(QueueOverflow, -350);
+    chk!(OperationComplete, -800);
+    chk!(RequestControl, -700);
+    // class bits named in the statement
+    assert!(spec_class(-101) == 0x20 && spec_class(-222) == 0x10, "C14/spec/class-bits");
 }
